@@ -8,7 +8,8 @@
 (***************************************************************************)
 EXTENDS Upf, Json
 
-CONSTANTS SampleMod, SampleKey   \* Gen: print the edges whose path hashes to SampleKey modulo SampleMod (1 = all)
+CONSTANTS SampleMod, SampleKey,  \* Gen: print the edges whose path hashes to SampleKey modulo SampleMod (1 = all)
+          EmitAt                 \* > 0 (simulation mode): print only complete walks of that many turns
 
 Step ==
   \/ \E p \in Peers : \E q \in FreshSeq(p) : Heartbeat(p, q)
@@ -17,17 +18,18 @@ Step ==
   \/ \E p \in Peers : \E q \in FreshSeq(p) : \E n \in NodeIds \cup {""} : \E cp \in CpSeids \cup {""} :
         \E ops \in EstOps : \E f \in FaultSets : \E f2 \in Fault2Sets :
            /\ (n = "" \/ cp = "" => ops = <<>> /\ f = {} /\ f2 = {})
+           /\ ("simbias" \in Kinds => n \in DOMAIN nodes /\ cp # "")     \* random walks: do not drown in requests that are ignored
            /\ (\A x \in f \cup f2 : x < Len(ops)) /\ f \cap f2 = {}
            /\ Establish(p, q, n, cp, ops, f, f2)
   \/ \E p \in Peers : \E q \in FreshSeq(p) : \E sref \in LiveOrds : \E ops \in ModOps : \E f \in FaultSets : \E f2 \in Fault2Sets :
         /\ (\A x \in f \cup f2 : x < Len(ops) + 1) /\ f \cap f2 = {}
         /\ Modify(p, q, sref, "", "", ops, f, f2)
   \/ \E p \in Peers : \E q \in FreshSeq(p) : \E lit \in SeidLits : \E ops \in {<<>>, <<Op("create", "far", 1)>>} :
-        Modify(p, q, 0, lit, "", ops, {}, {})
+        ("simbias" \in Kinds => lit = "9" /\ ops = <<>> /\ p = "p1") /\ Modify(p, q, 0, lit, "", ops, {}, {})
   \/ \E p \in Peers : \E q \in FreshSeq(p) : \E sref \in LiveOrds : \E n \in NodeIds \ DOMAIN nodes :
         "takeover" \in Kinds /\ Modify(p, q, sref, "", n, <<>>, {}, {})
   \/ \E p \in Peers : \E q \in FreshSeq(p) : \E sref \in LiveOrds : Delete(p, q, sref, "")
-  \/ \E p \in Peers : \E q \in FreshSeq(p) : \E lit \in SeidLits : Delete(p, q, 0, lit)
+  \/ \E p \in Peers : \E q \in FreshSeq(p) : \E lit \in SeidLits : ("simbias" \in Kinds => lit = "1" /\ p = "p1") /\ Delete(p, q, 0, lit)
   \/ \E k \in 1..turns : "dup" \in Kinds /\ IsReqEv(hist[k]) /\ Retrans(hist[k]) /\ UNCHANGED nseq
   \/ \E sref \in LiveOrds : \E u \in {1, 2} : \E trig \in {2} : Report(sref, "", <<UsarRep(u, trig)>>)
   \/ \E sref \in LiveOrds : "report2" \in Kinds /\ Report(sref, "", <<UsarRep(1, 2), UsarRep(2, 4), UsarRep(1, 256)>>)
@@ -53,7 +55,8 @@ NoVerdict == bad = {}
 View == <<nodes, slots, free, rx, tx, txseq, dp, tok, nseq, g, bad>>
 
 \* Gen configurations: print every transition once, with an input path that reaches it
-Emit == IF SampleMod = 1 \/ Len(ToJson(hist')) % SampleMod = SampleKey THEN PrintT(<<"EDGE", ToJson(hist')>>) ELSE TRUE
+Emit == IF EmitAt > 0 THEN (IF turns' = EmitAt THEN PrintT(<<"EDGE", ToJson(hist')>>) ELSE TRUE)
+        ELSE IF SampleMod = 1 \/ Len(ToJson(hist')) % SampleMod = SampleKey THEN PrintT(<<"EDGE", ToJson(hist')>>) ELSE TRUE
 
 \* ------------------------------------------------------------------ constant menus
 O(o, k, i) == Op(o, k, i)
